@@ -8,11 +8,12 @@
    resource gets the node of that object and the returned resource -> node map is no
    longer injective.  This file extends the theorem to that class ([wf_okb2]).
 
-   The model is the one with graph.py commit 5e78fd2 applied for pinned = false (the
-   returned dict goes through wfnode2tfmnode, Workflow.v result_map_t), so that the inputs
-   a hand-on tool declares but does not hand on get their nodes and trees in that pass.
+   The model is the repaired one for pinned = false (graph.py commits 5e78fd2, 1f88f3e:
+   every resource goes through wfnode2tfmnode right after the target, Workflow.v
+   result_map_t), so that the inputs a hand-on tool declares but does not hand on get their
+   nodes and trees in that pass, before the stand-in sources are connected.
 
-   Spec    wf_okb2 (decidable), handon_okb2 wf pt (decidable; true when passthrough is on),
+   Spec    wf_okb2 (decidable),
            hand_on (the resource whose expression object a hand-on tool returns),
            hroot (chains of hand-on tools)
    Part 2  step 1 of add_workflow under wf_okb2 (copy of WorkflowProofs.v Part 2 with
@@ -49,30 +50,6 @@ Definition wf_okb2 (wf : wflow) : bool :=
   && nodupb (w_srcs wf ++ all_ids wf)
   && forallb (app_okb2 wf) (w_apps wf)
   && match target wf with Some _ => true | None => false end.
-
-(* a tool that hands its input k on has no other input that is the output of a tool
-   (other inputs, if any, are workflow sources).  Without this add_workflow can fail:
-   see handon_unused_fails below *)
-Definition handon_app_okb (wf : wflow) (a : tapp) : bool :=
-  match a_tx a with
-  | TIn k => forallb (fun j => Nat.eqb j k || memb (nth j (a_ins a) 0) (w_srcs wf))
-               (seq 0 (length (a_ins a)))
-  | _ => true
-  end.
-Definition handon_okb (wf : wflow) : bool := forallb (handon_app_okb wf) (w_apps wf).
-
-(* what the repaired add_workflow (graph.py commit 5e78fd2, pinned = false) still needs:
-   with passthrough off, a tool that hands a workflow SOURCE on has no other input that
-   is the output of a tool.  See handon_src_unused_fails below *)
-Definition handon_src_app_okb (wf : wflow) (a : tapp) : bool :=
-  match a_tx a with
-  | TIn k => negb (memb (nth k (a_ins a) 0) (w_srcs wf))
-             || forallb (fun j => Nat.eqb j k || memb (nth j (a_ins a) 0) (w_srcs wf))
-                  (seq 0 (length (a_ins a)))
-  | _ => true
-  end.
-Definition handon_okb2 (wf : wflow) (pt : bool) : bool :=
-  pt || forallb (handon_src_app_okb wf) (w_apps wf).
 
 (* hand_on wf pt r = Some q: r is the output of a tool that hands its input q on AND
    parse_expr is given q's own expression object for it (passthrough on, or q is a
@@ -114,27 +91,10 @@ Proof.
   rewrite forallb_forall in *. intros a Hin. apply app_okb_okb2, Ha, Hin.
 Qed.
 
-Lemma handon_okb_okb2 wf pt : handon_okb wf = true -> handon_okb2 wf pt = true.
-Proof.
-  unfold handon_okb, handon_okb2. intros H. apply orb_true_iff. right.
-  rewrite forallb_forall in *. intros a Ha. specialize (H a Ha).
-  unfold handon_app_okb in H. unfold handon_src_app_okb. destruct (a_tx a); auto.
-  rewrite H. apply orb_true_r.
-Qed.
-
 Lemma ttop_not_tin t : ttop t = true -> is_tin t = false.
 Proof. destruct t; cbn; auto; discriminate. Qed.
 
-Lemma wf_okb_handon wf : wf_okb wf = true -> handon_okb wf = true.
-Proof.
-  unfold wf_okb, handon_okb. intros H.
-  apply andb_true_iff in H. destruct H as [H _].
-  apply andb_true_iff in H. destruct H as [_ Ha].
-  rewrite forallb_forall in *. intros a Hin. specialize (Ha a Hin).
-  unfold app_okb in Ha. apply andb_true_iff in Ha. destruct Ha as [Ha _].
-  apply andb_true_iff in Ha. destruct Ha as [_ Ht]. apply ttop_not_tin in Ht.
-  unfold handon_app_okb. destruct (a_tx a); try reflexivity. discriminate Ht.
-Qed.
+
 
 (* ======================================================================== *)
 (* Part 2: step 1 of add_workflow (as in WorkflowProofs.v, under wf_okb2) *)
@@ -331,7 +291,6 @@ Section S3.
   Variable wf : wflow.
   Variable pt : bool.
   Hypothesis Hwf : wf_okb2 wf = true.
-  Hypothesis Hho : handon_okb2 wf pt = true.
   Variable ex : etab.
   Hypothesis Hex : ExOK wf pt ex.
 
@@ -443,26 +402,6 @@ Section S3.
     intros r. apply (H (S (rank wf r))). lia.
   Qed.
 
-  (* passthrough off: the other inputs of a tool that hands a source on are workflow sources *)
-  Lemma handon_others a k q : In a apps -> a_tx a = TIn k -> pt = false ->
-    nth_error (a_ins a) k = Some q -> In q srcs ->
-    forall j z, nth_error (a_ins a) j = Some z -> j = k \/ In z srcs.
-  Proof.
-    intros Ha Et Hp Hk Hq j z Hj. unfold handon_okb2 in Hho. rewrite Hp in Hho. cbn [orb] in Hho.
-    rewrite forallb_forall in Hho.
-    specialize (Hho a Ha). unfold handon_src_app_okb in Hho. rewrite Et in Hho.
-    rewrite (nth_error_nth _ _ 0 Hk) in Hho.
-    assert (Hq' : memb q (w_srcs wf) = true) by (apply memb_In; exact Hq).
-    rewrite Hq' in Hho. cbn [negb orb] in Hho.
-    rewrite forallb_forall in Hho.
-    assert (Hlt : j < length (a_ins a)) by (apply nth_error_Some; congruence).
-    specialize (Hho j). rewrite in_seq in Hho.
-    assert (Hc : Nat.eqb j k || memb (nth j (a_ins a) 0) (w_srcs wf) = true) by (apply Hho; lia).
-    apply orb_true_iff in Hc. destruct Hc as [Hc | Hc].
-    - left. now apply Nat.eqb_eq.
-    - right. rewrite (nth_error_nth _ _ 0 Hj) in Hc. now apply memb_In.
-  Qed.
-
   (* the expression of a resource that owns its expression object *)
   Lemma root_expr r e : elookup r ex = Some e -> ~ In r srcs -> hand_on wf pt r = None ->
     exists a es, In a apps /\ a_out a = r /\ find_app wf r = Some a /\
@@ -518,6 +457,15 @@ Section S3.
   (* the invariant of step 2.  T has a tree for every processed resource that owns
      its expression object; a resource that is handed on has no entry of its own *)
 
+  Definition rooted (T : list (nat * lx)) (r : nat) : Prop :=
+    exists r0, hroot wf pt r r0 /\ In r0 (map fst T).
+
+  Lemma rooted_incl T T' r : incl T T' -> rooted T r -> rooted T' r.
+  Proof.
+    intros Hi [r0 [A B]]. exists r0. split; [exact A|].
+    apply in_map_iff in B. destruct B as [[r1 L] [E HT]]. apply in_map_iff. exists (r1, L). auto.
+  Qed.
+
   Record WS2 (X : list triple) (st : gstate) (T : list (nat * lx)) : Prop := mkWS2 {
     s2_inv : WInv st;
     s2_memo : forall r L, In (r, L) T ->
@@ -537,7 +485,7 @@ Section S3.
       exists r L e, In (r, L) T /\ elookup r ex = Some e /\ k = key_of e;
     s2_own : forall i n, In ((0, i), n) (g_memo st) ->
       (In i srcs /\ In i (map fst T)) \/
-      (exists a, In a apps /\ In (a_out a) (map fst T) /\ In i (own_ids a));
+      (exists a, In a apps /\ rooted T (a_out a) /\ In i (own_ids a));
     s2_root : forall r L, In (r, L) T -> hand_on wf pt r = None
   }.
 
@@ -572,7 +520,8 @@ Section S3.
           * destruct (root_expr r _ He Hr Hroot) as [a' [es [Ha' [Eo [_ [_ [_ [Kk [Ki _]]]]]]]]].
             cbn [key_of] in Kk. rewrite <- Kk in Ki. cbn [snd] in Ki.
             assert (a = a') by (apply (own_unique2 a a' i); auto).
-            subst a'. now rewrite <- Eo. }
+            subst a'. destruct HT as [r0 [Hr0 HT]]. rewrite Eo in Hr0.
+            rewrite (hroot_self _ _ Hroot Hr0) in HT. exact HT. }
     apply in_map_iff in HrT. destruct HrT as [[r0 L] [E HT]]. cbn in E. subst r0.
     exists L. split; [exact HT|].
     destruct (s2_memo _ _ _ W r L HT) as [e' [He' Hm']]. rewrite He in He'. injection He' as <-.
@@ -789,18 +738,20 @@ Section S3.
     - (* s_own *)
       intros i n Hk. rewrite map_app. cbn [map fst].
       assert (HrT' : In r (map fst T ++ [r])) by (apply in_app_iff; cbn; auto).
+      assert (HrR : rooted (T ++ [(r, L)]) r).
+      { exists r. split; [now apply hr_self|]. rewrite map_app. exact HrT'. }
       assert (Hmine : forall i0, In i0 (srcs_of (stopf (g_memo st)) e) ->
         (In i0 srcs /\ In i0 (map fst T ++ [r])) \/
-        (exists a, In a apps /\ In (a_out a) (map fst T ++ [r]) /\ In i0 (own_ids a))).
+        (exists a, In a apps /\ rooted (T ++ [(r, L)]) (a_out a) /\ In i0 (own_ids a))).
       { intros i0 Hi0.
         destruct Hform as [[Hs ->] | [Hns [a [es [Ha [Eo [Hf [Hfe [Hi [_ Hq]]]]]]]]]].
         - cbn in Hi0. destruct Hi0 as [<- | []]. left. auto.
         - destruct (srcs_of_inst (stopf (g_memo st)) es (a_tx a) e Hi (Hleaves a es Ha Hfe Hq) i0 Hi0)
             as [Hin | [k Hk0]].
-          + right. exists a. split; [exact Ha|]. split; [rewrite Eo; exact HrT'|].
+          + right. exists a. split; [exact Ha|]. split; [rewrite Eo; exact HrR|].
             unfold own_ids. apply in_app_iff. auto.
           + destruct (feeds_leaf2 es a k _ Ha Hfe Hk0) as [q [Hqk [[i1 [[= <-] [Hind _]]] | Hl]]].
-            * right. exists a. split; [exact Ha|]. split; [rewrite Eo; exact HrT'|].
+            * right. exists a. split; [exact Ha|]. split; [rewrite Eo; exact HrR|].
               unfold own_ids. apply in_app_iff. auto.
             * apply nth_error_In in Hqk. destruct (Hq q Hqk) as [q0 [Hq0 HqT]].
               pose proof (hroot_expr q q0 Hq0 _ Hl) as Hl0.
@@ -810,8 +761,9 @@ Section S3.
               -- destruct (root_expr q0 _ Hl0 Hqs (hroot_root _ _ Hq0))
                    as [aq [esq [Haq [Eoq [_ [_ [_ [Kk [Ki _]]]]]]]]].
                  cbn [key_of] in Kk. rewrite <- Kk in Ki. cbn [snd] in Ki.
-                 right. exists aq. split; [exact Haq|].
-                 split; [rewrite Eoq; apply in_app_iff; auto | exact Ki]. }
+                 right. exists aq. split; [exact Haq|]. split; [|exact Ki].
+                 rewrite Eoq. exists q0. split; [apply hr_self; eapply hroot_root; eauto|].
+                 rewrite map_app. apply in_app_iff. auto. }
       assert (Hk2 : In ((0, i), n) (g_memo st2) \/ e = ESrc i).
       { destruct Hk as [E | Hk]; [|left; exact Hk]. injection E as E1 E2.
         destruct Hres as [[i0 [n0 [-> [-> Hm]]]] | [o [args [_ Htag]]]].
@@ -821,7 +773,8 @@ Section S3.
       + destruct (Psrc _ _ Hk2) as [H | [i0 [[= <-] Hi0]]].
         * destruct (s2_own _ _ _ W i n H) as [[Hs HT] | [a [Ha [HT Hi]]]].
           -- left. split; [exact Hs | apply in_app_iff; auto].
-          -- right. exists a. split; [exact Ha|]. split; [apply in_app_iff; auto | exact Hi].
+          -- right. exists a. split; [exact Ha|]. split; [|exact Hi].
+             eapply rooted_incl; [|exact HT]. apply incl_appl, incl_refl.
         * apply Hmine, Hi0.
       + apply Hmine. cbn. auto.
     - (* s_root *)
@@ -875,15 +828,6 @@ Section S3.
     destruct (feeds_nth wf pt ex _ _ _ k q Hfe Hk) as [e0 [He0 _]]. split.
     - eapply elookup_dom; eauto.
     - destruct (app_parts2 wf Hwf a Ha) as [Hins _]. rewrite <- Eo. apply Hins, Hq.
-  Qed.
-
-  Definition rooted (T : list (nat * lx)) (r : nat) : Prop :=
-    exists r0, hroot wf pt r r0 /\ In r0 (map fst T).
-
-  Lemma rooted_incl T T' r : incl T T' -> rooted T r -> rooted T' r.
-  Proof.
-    intros Hi [r0 [A B]]. exists r0. split; [exact A|].
-    apply in_map_iff in B. destruct B as [[r1 L] [E HT]]. apply in_map_iff. exists (r1, L). auto.
   Qed.
 
   Definition W2T2 (fuel : nat) : Prop := forall X r st T,
@@ -985,46 +929,10 @@ Section S3.
           destruct (tool_inputs2 r e a He Es Hf q Hq) as [_ B]. lia.
   Qed.
 
-  (* every tool application feeds, directly or not, the final one *)
-  Lemma all_outs_in_T2 X st T tg :
-    pt = false -> WS2 X st T -> target wf = Some tg -> rooted T tg ->
-    forall a, In a apps -> rooted T (a_out a).
-  Proof.
-    intros Hpf W Htg HtT.
-    destruct (target_spec wf tg Htg) as [_ Hcons].
-    assert (H : forall d a, In a apps -> length apps - rank wf (a_out a) <= d -> rooted T (a_out a)).
-    { induction d as [|d IHd]; intros a Ha Hd;
-        (destruct (Nat.eq_dec (a_out a) tg) as [-> | Hne]; [exact HtT|]);
-        assert (Ho : In (a_out a) (outs wf)) by (unfold outs; now apply in_map);
-        specialize (Hcons _ Ho Hne); unfold consumed in Hcons; apply existsb_exists in Hcons;
-        destruct Hcons as [b [Hb Hm]]; apply memb_In in Hm;
-        destruct (app_parts2 wf Hwf b Hb) as [Hins [Hle _]]; destruct (Hins _ Hm) as [_ Hlt].
-      - exfalso. unfold apps in *. lia.
-      - assert (HbT : rooted T (a_out b)).
-        { apply IHd; [exact Hb|]. unfold apps in *. lia. }
-        destruct HbT as [rb [Hrb HrbT]].
-        assert (Hfb : find_app wf (a_out b) = Some b).
-        { apply find_app_unique; [apply (nd_outs2 wf Hwf) | exact Hb]. }
-        destruct (hand_on wf pt (a_out b)) as [q|] eqn:Eh.
-        + (* b hands an input on: it is this one *)
-          destruct (hand_on_some _ q Eh) as [b' [k [Hf' [_ [_ [Et [Hk Hc]]]]]]].
-          rewrite Hfb in Hf'. injection Hf' as <-.
-          rewrite Hpf in Hc. cbn [orb] in Hc. apply memb_In in Hc.
-          destruct (In_nth_error _ _ Hm) as [j Hj].
-          destruct (handon_others b k q Hb Et Hpf Hk Hc j (a_out a) Hj) as [-> | Hs].
-          * rewrite Hk in Hj. injection Hj as ->.
-            exists rb. split; [|exact HrbT]. inversion Hrb; subst; congruence.
-          * exfalso. apply (src_not_out2 wf Hwf _ Hs Ho).
-        + pose proof (hroot_self _ _ Eh Hrb) as ->.
-          apply in_map_iff in HrbT. destruct HrbT as [[r1 Lb] [E HT]]. cbn in E. subst r1.
-          apply (s2_closed _ _ _ W (a_out b) Lb b HT Hfb _ Hm). }
-    intros a Ha. apply (H (length apps) a Ha). lia.
-  Qed.
-
   (* a new source node (graph.py:488 when the input is not used by the tool's expression) *)
   Lemma WS2_add_src X st T id a :
     WS2 X st T -> memo_find (0, id) (g_memo st) = None ->
-    In a apps -> In (a_out a) (map fst T) -> In id (own_ids a) ->
+    In a apps -> rooted T (a_out a) -> In id (own_ids a) ->
     WS2 X (set_memo (0, id) (g_next st) (snd (fresh st))) T.
   Proof.
     intros W Hmiss Ha HaT Hid.
@@ -1078,7 +986,7 @@ Section S3.
 
   Lemma indir_ok2 : forall ind X st T,
     WS2 X st T ->
-    (forall id e, In (id, e) ind -> exists a q, In a apps /\ In (a_out a) (map fst T) /\
+    (forall id e, In (id, e) ind -> exists a q, In a apps /\ rooted T (a_out a) /\
        In id (own_ids a) /\ elookup q ex = Some e /\ In q (map fst T)) ->
     exists st' X', indir_loop add_from add_from_r false ind st = Some st' /\ WS2 X' st' T /\
       mpres (g_memo st) (g_memo st') /\
@@ -1203,20 +1111,6 @@ Section S3.
     intros a Ha. apply (H (length apps) a Ha). lia.
   Qed.
 
-  (* passthrough off: a tool with an input that is another tool's output owns its
-     expression object *)
-  Lemma ind_owner_root a k q :
-    In a apps -> nth_error (a_ins a) k = Some q -> ~ In q srcs -> pt = false ->
-    hand_on wf pt (a_out a) = None.
-  Proof.
-    intros Ha Hk Hq Hp.
-    destruct (hand_on wf pt (a_out a)) as [q1|] eqn:Eh; [|reflexivity]. exfalso.
-    destruct (hand_on_some _ q1 Eh) as [a' [k1 [Hf' [_ [_ [Et [Hk1 Hc]]]]]]].
-    rewrite (find_app_unique wf a (nd_outs2 wf Hwf) Ha) in Hf'. injection Hf' as <-.
-    rewrite Hp in Hc. cbn [orb] in Hc. apply memb_In in Hc.
-    destruct (handon_others a k1 q1 Ha Et Hp Hk1 Hc k q Hk) as [-> | Hs]; [|contradiction].
-    rewrite Hk in Hk1. injection Hk1 as ->. contradiction.
-  Qed.
   Lemma rank_bound r : In r srcs \/ In r (outs wf) -> rank wf r < wf_fuel wf.
   Proof.
     intros [Hs | Ho]; [rewrite (rank_src2 r Hs); unfold wf_fuel; lia|].
@@ -1275,7 +1169,7 @@ Definition is_some {A} (o : option A) : bool := match o with Some _ => true | No
 
 Theorem add_workflow_handon add_from add_from_r :
   add_from_ok add_from -> add_from_ok add_from_r ->
-  forall pt wf, wf_okb2 wf = true -> handon_okb2 wf pt = true ->
+  forall pt wf, wf_okb2 wf = true ->
   exists res T sg tg,
     add_workflow add_from add_from_r false pt wf = Some res /\
     target wf = Some tg /\
@@ -1306,7 +1200,7 @@ Theorem add_workflow_handon add_from add_from_r :
     Forall2 (fun s n => rho res s = Some n) (w_srcs wf) (r_inputs res) /\
     rho res tg = Some (r_output res).
 Proof.
-  intros Hok Hokr pt wf Hwf Hho.
+  intros Hok Hokr pt wf Hwf.
   destruct (wf_parts2 wf Hwf) as [_ [_ [_ [tg Htg]]]].
   destruct (target_spec wf tg Htg) as [Htgo _].
   set (srcs := w_srcs wf). set (apps := w_apps wf).
@@ -1351,75 +1245,69 @@ Proof.
             exists e n, elookup r ex = Some e /\ memo_find (key_of e) (g_memo st) = Some n).
   { intros X st T r W HT. apply in_map_iff in HT. destruct HT as [[r0 L] [E HT]]. cbn in E. subst r0.
     destruct (s2_memo _ _ _ _ _ _ W r L HT) as [e [He Hm]]. eauto. }
-  destruct (indir_ok2 add_from add_from_r Hokr wf pt ex (e_ind E1) [] st1 T1 W1)
-    as [st2 [X2 [Ei [W2 [Hp2 [HX2 Hall2]]]]]].
-  { intros id e Hin. apply Hind in Hin. destruct Hin as [Hp [a [k [q [Hd [Ha [Hk [Hq [Hi He]]]]]]]]].
-    (* passthrough off: everything has been visited by now *)
-    assert (Hall1 : forall a, In a apps -> rooted wf pt T1 (a_out a)).
-    { apply (all_outs_in_T2 wf pt Hwf Hho ex [] st1 T1 tg Hp W1 Htg).
-      exists tg0. split; [exact Htg0|]. apply in_map_iff. exists (tg0, Ltg). auto. }
-    pose proof (ind_owner_root wf pt Hwf Hho a k q Ha Hk Hq Hp) as Hra.
-    destruct (Hall1 a Ha) as [ra [Hra1 Hra2]]. rewrite (hroot_self wf pt _ _ Hra Hra1) in Hra2.
-    destruct (app_parts2 wf Hwf a Ha) as [Hins _].
-    destruct (Hins q (nth_error_In _ _ Hk)) as [[F | Ho] _]; [contradiction|].
-    destruct (out_app2 wf Hwf q Ho) as [aq [Haq [Eoq _]]].
-    destruct (Hall1 aq Haq) as [q0 [Hq0 Hq0T]]. rewrite Eoq in Hq0.
-    exists a, q0. split; [exact Ha|]. split; [exact Hra2|]. split.
-    - unfold own_ids. apply in_app_iff. right. eapply nth_error_In; eauto.
-    - split; [|exact Hq0T]. apply (hroot_expr wf pt Hwf ex Hex q q0 Hq0 e He). }
-  destruct (inputs_ok2 add_from Hok wf pt Hwf ex Hex srcs X2 st2 T1 W2 (fun s H => H))
-    as [ins [st3 [T3 [El [W3 [Hi3 [Hp3 [Hs3 Hf3]]]]]]]].
+  (* the all-resources pass: every resource is visited *)
+  destruct (result_map_t_ok add_from Hok wf pt Hwf ex Hex ex [] st1 T1 W1 (fun r H => H))
+    as [l1 [st1p [T1p [Epass [W1p [Hi1p [_ [Hl1f Hl1]]]]]]]].
+  assert (Hroot1 : forall r, In r (map fst ex) -> rooted wf pt T1p r).
+  { intros r Hr. rewrite <- Hl1f in Hr. apply in_map_iff in Hr. destruct Hr as [[r1 n] [E Hin]].
+    cbn in E. subst r1. destruct (Hl1 r n Hin) as [r0 [L [Hr0 [HT _]]]].
+    exists r0. split; [exact Hr0|]. apply in_map_iff. exists (r0, L). auto. }
   pose proof Hex as Hex'. destruct Hex' as [X0 [X1 [X2' X3]]].
   assert (Hdomex : forall r, In r (map fst ex) <-> In r srcs \/ In r (outs wf)).
   { intros r. split; [apply X2'|]. intros [Hs | Ho].
     - eapply elookup_dom. apply X1, Hs.
     - destruct (out_app2 wf Hwf r Ho) as [a [Ha [Eo _]]]. rewrite <- Eo.
       apply (all_outs_in_ex wf pt Hwf ex Hex tg Htg (elookup_dom _ _ _ Hltg) a Ha). }
-  (* graph.py:512-514: the resources not visited so far are visited now *)
-  destruct (result_map_t_ok add_from Hok wf pt Hwf ex Hex ex X2 st3 T3 W3 (fun r H => H))
-    as [m [st4 [T4 [Em [W4 [Hi4 [Hp4 [Hmf Hm]]]]]]]].
-  assert (Hp24 : mpres (g_memo st2) (g_memo st4)) by (eapply mpres_trans; eauto).
-  assert (Hs4 : forall s, In s srcs -> In s (map fst T4)).
-  { intros s Hs. specialize (Hs3 s Hs). apply in_map_iff in Hs3. destruct Hs3 as [[s0 L] [E HT]].
-    apply in_map_iff. exists (s0, L). split; [exact E | apply Hi4, HT]. }
-  assert (HdomT4 : forall r, In r (map fst T4) <->
+  destruct (indir_ok2 add_from add_from_r Hokr wf pt ex (e_ind E1) [] st1p T1p W1p)
+    as [st2 [X2 [Ei [W2 [Hp2 [HX2 Hall2]]]]]].
+  { intros id e Hin. apply Hind in Hin. destruct Hin as [Hp [a [k [q [Hd [Ha [Hk [Hq [Hi He]]]]]]]]].
+    assert (Hqd : In q (map fst ex)) by (eapply elookup_dom; eauto).
+    destruct (Hroot1 q Hqd) as [q0 [Hq0 Hq0T]].
+    exists a, q0. split; [exact Ha|]. split; [apply Hroot1; exact Hd|]. split.
+    - unfold own_ids. apply in_app_iff. right. eapply nth_error_In; eauto.
+    - split; [|exact Hq0T]. apply (hroot_expr wf pt Hwf ex Hex q q0 Hq0 e He). }
+  destruct (inputs_ok2 add_from Hok wf pt Hwf ex Hex srcs X2 st2 T1p W2 (fun s H => H))
+    as [ins [st3 [T3 [El [W3 [Hi3 [Hp3 [Hs3 Hf3]]]]]]]].
+  assert (HdomT3 : forall r, In r (map fst T3) <->
                      (In r srcs \/ In r (outs wf)) /\ hand_on wf pt r = None).
   { intros r. split.
     - intros HT. split.
-      + destruct (Hlook _ _ _ r W4 HT) as [e [n [He _]]]. apply X2'. eapply elookup_dom; eauto.
+      + destruct (Hlook _ _ _ r W3 HT) as [e [n [He _]]]. apply X2'. eapply elookup_dom; eauto.
       + apply in_map_iff in HT. destruct HT as [[r1 L] [E HT]]. cbn in E. subst r1.
-        apply (s2_root _ _ _ _ _ _ W4 r L HT).
-    - intros [Hd Hroot]. apply Hdomex in Hd. rewrite <- Hmf in Hd.
-      apply in_map_iff in Hd. destruct Hd as [[r1 n] [E Hin]]. cbn in E. subst r1.
-      destruct (Hm r n Hin) as [r0 [L [Hr0 [HT _]]]].
-      rewrite (hroot_self wf pt _ _ Hroot Hr0) in HT. apply in_map_iff. exists (r, L). auto. }
+        apply (s2_root _ _ _ _ _ _ W3 r L HT).
+    - intros [Hd Hroot]. apply Hdomex in Hd. destruct (Hroot1 r Hd) as [r0 [Hr0 Hr0T]].
+      rewrite (hroot_self wf pt _ _ Hroot Hr0) in Hr0T.
+      apply in_map_iff in Hr0T. destruct Hr0T as [[r1 L] [E HT]].
+      apply in_map_iff. exists (r1, L). split; [exact E | apply Hi3, HT]. }
   assert (Hlook2 : forall r, In r (map fst ex) ->
-            exists e n, elookup r ex = Some e /\ memo_find (key_of e) (g_memo st4) = Some n).
+            exists e n, elookup r ex = Some e /\ memo_find (key_of e) (g_memo st3) = Some n).
   { intros r Hr. destruct (in_dom_lookup ex r Hr) as [e He].
     destruct (hroot_total wf pt Hwf r) as [r0 Hr0].
-    assert (HT : In r0 (map fst T4)).
-    { apply HdomT4. split; [|eapply hroot_root; eauto].
+    assert (HT : In r0 (map fst T3)).
+    { apply HdomT3. split; [|eapply hroot_root; eauto].
       apply (hroot_dom wf pt Hwf r r0 Hr0). now apply Hdomex. }
-    destruct (Hlook _ _ _ r0 W4 HT) as [e0 [n [He0 Hn]]].
+    destruct (Hlook _ _ _ r0 W3 HT) as [e0 [n [He0 Hn]]].
     rewrite (hroot_expr wf pt Hwf ex Hex r r0 Hr0 e He) in He0. injection He0 as <-. eauto. }
-  unfold add_workflow. fold srcs. fold E0. rewrite Htg, Ew. fold ex. rewrite Et, Ei. fold srcs.
-  rewrite El, Em.
-  set (res := mkRes (g_tr st4) ins res0 m).
+  destruct (result_map_ok (g_memo st3) ex) as [m [Em [Hmf Hm]]].
+  { intros r e Hin. assert (Hr : In r (map fst ex)) by (apply in_map_iff; exists (r, e); auto).
+    destruct (Hlook2 r Hr) as [e' [n [He' Hn]]].
+    rewrite (In_elookup r e ex X0 Hin) in He'. injection He' as <-. eauto. }
+  unfold add_workflow. fold srcs. fold E0. rewrite Htg, Ew. fold ex. rewrite Et, Epass.
+  cbn [option_map snd]. rewrite Ei. fold srcs. rewrite El, Em.
+  set (res := mkRes (g_tr st3) ins res0 m).
   assert (Hndm : NoDup (map fst m)) by (rewrite Hmf; exact X0).
-  assert (Hrho : forall r e n, elookup r ex = Some e -> memo_find (key_of e) (g_memo st4) = Some n ->
+  assert (Hrho : forall r e n, elookup r ex = Some e -> memo_find (key_of e) (g_memo st3) = Some n ->
             rho res r = Some n).
   { intros r e n He Hn. unfold rho. cbn [r_map res]. apply In_assoc_n; [exact Hndm|].
     assert (Hr : In r (map fst m)) by (rewrite Hmf; eapply elookup_dom; eauto).
-    apply in_map_iff in Hr. destruct Hr as [[r1 n0] [E Hin]]. cbn in E. subst r1.
-    destruct (Hm r n0 Hin) as [r0 [L [Hr0 [HT HL]]]].
-    destruct (s2_memo _ _ _ _ _ _ W4 r0 L HT) as [e0 [He0 Hn0]].
-    rewrite (hroot_expr wf pt Hwf ex Hex r r0 Hr0 e He) in He0. injection He0 as <-.
-    rewrite Hn in Hn0. injection Hn0 as ->. rewrite HL. exact Hin. }
-  assert (HrhoT : forall r L, In (r, L) T4 -> rho res r = Some (lnode L)).
-  { intros r L HT. destruct (s2_memo _ _ _ _ _ _ W4 r L HT) as [e [He Hn]]. eapply Hrho; eauto. }
+    apply in_map_iff in Hr. destruct Hr as [[r0 n0] [E Hin]]. cbn in E. subst r0.
+    destruct (Hm r n0 Hin) as [e' [Hin' Hn']].
+    rewrite (In_elookup r e' ex X0 Hin') in He. injection He as <-. congruence. }
+  assert (HrhoT : forall r L, In (r, L) T3 -> rho res r = Some (lnode L)).
+  { intros r L HT. destruct (s2_memo _ _ _ _ _ _ W3 r L HT) as [e [He Hn]]. eapply Hrho; eauto. }
   (* the handed-on resources: leaves *)
   set (nd := fun p : nat * expr =>
-               match memo_find (key_of (snd p)) (g_memo st4) with Some n => n | None => 0 end).
+               match memo_find (key_of (snd p)) (g_memo st3) with Some n => n | None => 0 end).
   set (Tal := map (fun p => (fst p, LLeaf (nd p)))
                 (filter (fun p => is_some (hand_on wf pt (fst p))) ex)).
   assert (HTal : forall r L, In (r, L) Tal <->
@@ -1434,9 +1322,9 @@ Proof.
   assert (HTalleaf : forall p, In p Tal -> exists n, snd p = LLeaf n).
   { intros [r L] Hin. apply HTal in Hin. destruct Hin as [e [_ [_ ->]]]. cbn. eauto. }
   destruct (leaves_flowT Tal HTalleaf) as [HfT HnT].
-  assert (Hnames : namesT (T4 ++ Tal) = namesT T4).
+  assert (Hnames : namesT (T3 ++ Tal) = namesT T3).
   { rewrite namesT_app, HnT. apply app_nil_r. }
-  assert (Hflow : forall t, In t (flowT (T4 ++ Tal)) <-> In t (flowT T4)).
+  assert (Hflow : forall t, In t (flowT (T3 ++ Tal)) <-> In t (flowT T3)).
   { intros t. rewrite flowT_app, HfT. cbn. tauto. }
   assert (HrhoTal : forall r L, In (r, L) Tal -> rho res r = Some (lnode L)).
   { intros r L Hin. apply HTal in Hin. destruct Hin as [e [Hin [_ ->]]]. cbn [lnode].
@@ -1446,18 +1334,18 @@ Proof.
     unfold nd. cbn [snd]. rewrite Hn. eapply Hrho; [|exact Hn]. apply In_elookup; auto. }
   (* the graph *)
   assert (Hgraph : forall t, vis t ->
-       (In t (r_tr res) <-> In t (flowT T4) \/
+       (In t (r_tr res) <-> In t (flowT T3) \/
           (pt = false /\ exists a k q sn rn, In a (w_apps wf) /\ nth_error (a_ins a) k = Some q /\
-             ~ In q (w_srcs wf) /\ anm (g_memo st4) (nth k (a_ind a) 0) = Some sn /\
+             ~ In q (w_srcs wf) /\ anm (g_memo st3) (nth k (a_ind a) 0) = Some sn /\
              rho res q = Some rn /\ t = (sn, p_from, rn)))).
-  { intros t Hv. cbn [r_tr res]. rewrite (s2_veq _ _ _ _ _ _ W4 t Hv), in_app_iff, HX2. cbn [In].
+  { intros t Hv. cbn [r_tr res]. rewrite (s2_veq _ _ _ _ _ _ W3 t Hv), in_app_iff, HX2. cbn [In].
     split.
     - intros [H | [[] | [id [e [Hin [sn [rn [Hsn [Hrn ->]]]]]]]]]; [auto|]. right.
       apply Hind in Hin. destruct Hin as [Hp [a [k [q [Hd [Ha [Hk [Hq [Hi He]]]]]]]]].
       split; [exact Hp|]. exists a, k, q, sn, rn. split; [exact Ha|]. split; [exact Hk|].
       split; [exact Hq|]. split.
-      + rewrite (nth_error_nth _ _ 0 Hi). unfold anm. apply Hp24, Hsn.
-      + split; [|reflexivity]. eapply Hrho; [exact He | apply Hp24, Hrn].
+      + rewrite (nth_error_nth _ _ 0 Hi). unfold anm. apply Hp3, Hsn.
+      + split; [|reflexivity]. eapply Hrho; [exact He | apply Hp3, Hrn].
     - intros [H | [Hp [a [k [q [sn [rn [Ha [Hk [Hq [Hsn [Hrn ->]]]]]]]]]]]]; [auto|]. right. right.
       destruct (app_parts2 wf Hwf a Ha) as [Hins [_ [_ [_ Hlen]]]].
       assert (Hqd : In q (map fst ex)) by (apply Hdomex; apply (Hins q (nth_error_In _ _ Hk))).
@@ -1472,8 +1360,8 @@ Proof.
       exists (nth k (a_ind a) 0), e. split; [exact Hin|].
       destruct (Hall2 _ _ Hin) as [sn' [rn' [A B]]].
       exists sn', rn'. split; [exact A|]. split; [exact B|].
-      unfold anm in Hsn. rewrite (Hp24 _ _ A) in Hsn. injection Hsn as <-.
-      rewrite (Hrho q e rn' He (Hp24 _ _ B)) in Hrn. now injection Hrn as <-. }
+      unfold anm in Hsn. rewrite (Hp3 _ _ A) in Hsn. injection Hsn as <-.
+      rewrite (Hrho q e rn' He (Hp3 _ _ B)) in Hrn. now injection Hrn as <-. }
   (* which resources share a node *)
   assert (Hshare : forall r r', In r (map fst ex) -> In r' (map fst ex) ->
      (rho res r = rho res r' <-> exists r0, hroot wf pt r r0 /\ hroot wf pt r' r0)).
@@ -1485,7 +1373,7 @@ Proof.
     pose proof (hroot_expr wf pt Hwf ex Hex r' r0' Hr0' e' He') as He0'.
     split.
     - intros [= <-]. exists r0. split; [exact Hr0|].
-      destruct (s2_inv _ _ _ _ _ _ W4) as [_ [_ I3]]. pose proof (I3 _ _ n Hn Hn') as Hk.
+      destruct (s2_inv _ _ _ _ _ _ W3) as [_ [_ I3]]. pose proof (I3 _ _ n Hn Hn') as Hk.
       rewrite (key_inj2 wf pt Hwf ex Hex r0 r0' e e' (hroot_root _ _ _ _ Hr0)
                  (hroot_root _ _ _ _ Hr0') He0 He0' Hk). exact Hr0'.
     - intros [x [Hx Hx']].
@@ -1495,7 +1383,7 @@ Proof.
      if pt || memb q (w_srcs wf)
      then rho res (a_out a) = rho res q /\ (exists n, rho res q = Some n)
      else exists sn rn, rho res (a_out a) = Some sn /\
-            anm (g_memo st4) (nth k (a_ind a) 0) = Some sn /\
+            anm (g_memo st3) (nth k (a_ind a) 0) = Some sn /\
             rho res q = Some rn /\ In (sn, p_from, rn) (r_tr res)).
   { intros a k q Ha Eta Hk.
     assert (Hfa : find_app wf (a_out a) = Some a)
@@ -1518,14 +1406,14 @@ Proof.
       { intros F. apply (src_not_out2 wf Hwf _ F). unfold outs. now apply in_map. }
       destruct (root_expr wf pt Hwf ex Hex _ e He Hns Hh) as [a' [es [_ [_ [Hf' [_ [_ [Kk _]]]]]]]].
       rewrite Hfa in Hf'. injection Hf' as <-. unfold rkey in Kk. rewrite Eta in Kk.
-      assert (Hsg : anm (g_memo st4) (nth k (a_ind a) 0) = Some n).
+      assert (Hsg : anm (g_memo st3) (nth k (a_ind a) 0) = Some n).
       { unfold anm. rewrite <- Kk. exact Hn. }
       exists n, nq. split; [eapply Hrho; eauto|]. split; [exact Hsg|].
       split; [eapply Hrho; eauto|].
       apply (Hgraph (n, p_from, nq)); [unfold vis; cbn; discriminate|]. right. split; [exact Ep|].
       exists a, k, q, n, nq. split; [exact Ha|]. split; [exact Hk|]. split; [exact Emq|].
       split; [exact Hsg|]. split; [eapply Hrho; eauto | reflexivity]. }
-  exists res, (T4 ++ Tal), (anm (g_memo st4)), tg.
+  exists res, (T3 ++ Tal), (anm (g_memo st3)), tg.
   split; [reflexivity|]. split; [reflexivity|].
   split; [intros r; cbn [r_map res]; rewrite Hmf; apply Hdomex|].
   split; [exact Hndm|].
@@ -1534,32 +1422,32 @@ Proof.
   split.
   { (* every resource has a tree *)
     intros r. rewrite map_app, in_app_iff. split.
-    - intros [HT | HT]; [apply HdomT4 in HT; tauto|].
+    - intros [HT | HT]; [apply HdomT3 in HT; tauto|].
       apply in_map_iff in HT. destruct HT as [[r1 L] [E HT]]. cbn in E. subst r1.
       apply HTal in HT. destruct HT as [e [Hin _]]. apply Hdomex. apply in_map_iff. exists (r, e). auto.
     - intros Hr. destruct (hand_on wf pt r) as [q|] eqn:Eh.
       + right. apply Hdomex in Hr. destruct (in_dom_lookup ex r Hr) as [e He].
         apply in_map_iff. exists (r, LLeaf (nd (r, e))). split; [reflexivity|]. apply HTal.
         exists e. split; [now apply elookup_In|]. split; [congruence | reflexivity].
-      + left. apply HdomT4. auto. }
+      + left. apply HdomT3. auto. }
   split.
-  { rewrite map_app. apply NoDup_app_intro; [apply (s2_ndT _ _ _ _ _ _ W4) | |].
+  { rewrite map_app. apply NoDup_app_intro; [apply (s2_ndT _ _ _ _ _ _ W3) | |].
     - unfold Tal. rewrite map_map. cbn [fst]. apply NoDup_map_filter. exact X0.
-    - intros x Hx Hx'. apply HdomT4 in Hx. destruct Hx as [_ Hx].
+    - intros x Hx Hx'. apply HdomT3 in Hx. destruct Hx as [_ Hx].
       apply in_map_iff in Hx'. destruct Hx' as [[r1 L] [E HT]]. cbn in E. subst r1.
       apply HTal in HT. destruct HT as [e [_ [Hs _]]]. contradiction. }
   split.
   { intros r L HT. apply in_app_iff in HT. destruct HT as [HT | HT]; [now apply HrhoT | now apply HrhoTal]. }
   split.
   { intros s L HT Hs. apply in_app_iff in HT. destruct HT as [HT | HT].
-    - apply (s2_leaf _ _ _ _ _ _ W4 s L HT Hs).
+    - apply (s2_leaf _ _ _ _ _ _ W3 s L HT Hs).
     - apply HTal in HT. destruct HT as [e [_ [_ ->]]]. eauto. }
   split.
   { (* the tree of a tool application *)
     intros a L Ha HT. apply in_app_iff in HT. destruct HT as [HT | HT].
     - assert (Hns : ~ In (a_out a) srcs).
       { intros F. apply (src_not_out2 wf Hwf _ F). unfold outs. now apply in_map. }
-      destruct (s2_shape _ _ _ _ _ _ W4 (a_out a) L HT Hns) as [a' [es [Hf [Hfe Hts]]]].
+      destruct (s2_shape _ _ _ _ _ _ W3 (a_out a) L HT Hns) as [a' [es [Hf [Hfe Hts]]]].
       rewrite (find_app_unique wf a (nd_outs2 wf Hwf) Ha) in Hf. injection Hf as <-.
       eapply tshape_mono; [| |exact Hts]; [|auto].
       intros k n Hl. unfold lfm in Hl. destruct (nth_error es k) as [e0|] eqn:Ek; [|discriminate].
@@ -1582,35 +1470,36 @@ Proof.
       assert (Hr : In (a_out a) (map fst ex)) by (eapply elookup_dom; eauto).
       destruct (Hlook2 _ Hr) as [e' [n [He' Hn]]]. rewrite He in He'. injection He' as <-.
       unfold nd. cbn [snd]. rewrite Hn. eapply Hrho; eauto. }
-  split; [rewrite Hnames; apply (s2_nd _ _ _ _ _ _ W4)|]. split.
-  { intros i n Hi. rewrite Hnames. apply (s2_src _ _ _ _ _ _ W4 i n). now apply memo_find_In. }
+  split; [rewrite Hnames; apply (s2_nd _ _ _ _ _ _ W3)|]. split.
+  { intros i n Hi. rewrite Hnames. apply (s2_src _ _ _ _ _ _ W3 i n). now apply memo_find_In. }
   split.
-  { intros s Hs. specialize (Hs4 s Hs). apply in_map_iff in Hs4. destruct Hs4 as [[s0 L] [E HT]].
+  { intros s Hs. specialize (Hs3 s Hs). apply in_map_iff in Hs3. destruct Hs3 as [[s0 L] [E HT]].
     cbn in E. subst s0. rewrite (HrhoT s L HT).
-    destruct (s2_memo _ _ _ _ _ _ W4 s L HT) as [e [He Hn]]. rewrite (X1 s Hs) in He. injection He as <-.
+    destruct (s2_memo _ _ _ _ _ _ W3 s L HT) as [e [He Hn]]. rewrite (X1 s Hs) in He. injection He as <-.
     exact Hn. }
   split.
   { intros t Hv. rewrite Hflow. apply Hgraph, Hv. }
   split.
   { cbn [r_inputs res]. eapply Forall2_mono_in; [|exact Hf3]. intros s n Hs Hn. cbn beta in Hn.
-    apply (Hrho s (ESrc s) n (X1 s Hs)). apply Hp4. exact Hn. }
+    apply (Hrho s (ESrc s) n (X1 s Hs)). exact Hn. }
   cbn [r_output res]. rewrite <- Hres0.
   destruct (hroot_total wf pt Hwf tg) as [t0 Ht0].
   pose proof (hroot_fun _ _ _ _ Htg0 _ Ht0) as ->.
   destruct (in_dom_lookup ex tg (elookup_dom _ _ _ Hltg)) as [etg Hetg].
-  destruct (s2_memo _ _ _ _ _ _ W4 t0 Ltg (Hi4 _ (Hi3 _ HLtg))) as [e [He Hn]].
+  destruct (s2_memo _ _ _ _ _ _ W3 t0 Ltg (Hi3 _ (Hi1p _ HLtg))) as [e [He Hn]].
   rewrite (hroot_expr wf pt Hwf ex Hex tg t0 Ht0 _ Hetg) in He. injection He as <-.
   eapply Hrho; eauto.
 Qed.
 
 (* ======================================================================== *)
-(* Hand-on tools with a second input that is another tool's output.
+(* The code as pinned (pinned = true) fails in this class: hand-on tools with a second
+   input that is another tool's output.
      sources 0;  1 := f 1 on [0];  2 := g 1 on [0];  3 := `1` on [1; 2];  4 := h 1 2 on [1; 3]
    With passthrough on, resource 3 has the expression object of resource 1, which has a
    node by the time 3 is visited (graph.py:469-470), so the inputs of 3 are not visited
-   (473-476) and resource 2 has no node when the dict is built.  As pinned the dict
-   comprehension raises KeyError; as repaired (commit 5e78fd2, pinned = false) resource 2
-   is visited at that point and gets its node and its tree. *)
+   (473-476) and resource 2 has no node when the dict is built: KeyError in the dict
+   comprehension (graph.py:506-507).  As repaired every resource is visited right after
+   the target. *)
 Definition unused_wf : wflow :=
   mkWf [0] [mkApp 1 (TApp 11 (TOp 10 0) (TIn 0) false) [0] [12];
             mkApp 2 (TApp 21 (TOp 20 1) (TIn 0) false) [0] [22];
@@ -1620,34 +1509,32 @@ Definition unused_wf : wflow :=
 Lemma handon_unused_pinned_fails :
   exists wf, wf_okb2 wf = true /\
     add_workflow add_from_plain add_from_plain true true wf = None /\
-    (exists res, add_workflow add_from_plain add_from_plain false true wf = Some res /\
-                 r_map res = [(0, 0); (1, 1); (2, 6); (3, 1); (4, 3)]).
+    (forall pt, exists res, add_workflow add_from_plain add_from_plain false pt wf = Some res).
 Proof.
   exists unused_wf. split; [reflexivity|]. split; [vm_compute; reflexivity|].
-  eexists. split; [vm_compute; reflexivity | reflexivity].
+  intros []; eexists; vm_compute; reflexivity.
 Qed.
 
-(* The repaired code still fails with passthrough off when the hand-on tool hands a
-   workflow SOURCE on and declares another tool's output:
+(* Passthrough off, the hand-on tool hands a workflow SOURCE on and declares another tool's
+   output:
      sources 0;  1 := f 1 on [0];  2 := g 1 on [0];  3 := `1` on [0; 2];  4 := h 1 2 on [1; 3]
    Step 1 records the indirection (stand-in Source for input 2 of tool 3 -> expression of
    resource 2), but resource 3 has the Source object of source 0, which has a node when 3 is
    visited, so resource 2 is not visited before the indirection loop looks its node up:
-   KeyError at `self.expr_nodes[ref_expr]` (graph.py:494), confirmed on /repo 5e78fd2.
-   This is what handon_okb2 excludes. *)
+   KeyError at `self.expr_nodes[ref_expr]` (graph.py:489). *)
 Definition src_unused_wf : wflow :=
   mkWf [0] [mkApp 1 (TApp 11 (TOp 10 0) (TIn 0) false) [0] [12];
             mkApp 2 (TApp 21 (TOp 20 1) (TIn 0) false) [0] [22];
             mkApp 3 (TIn 0) [0; 2] [32; 33];
             mkApp 4 (TApp 42 (TApp 41 (TOp 40 2) (TIn 0) false) (TIn 1) false) [1; 3] [43; 44]].
 
-Lemma handon_src_unused_fails :
+Lemma handon_src_unused_pinned_fails :
   exists wf, wf_okb2 wf = true /\
-    add_workflow add_from_plain add_from_plain false false wf = None /\
-    (exists res, add_workflow add_from_plain add_from_plain false true wf = Some res).
+    add_workflow add_from_plain add_from_plain true false wf = None /\
+    (forall pt, exists res, add_workflow add_from_plain add_from_plain false pt wf = Some res).
 Proof.
   exists src_unused_wf. split; [reflexivity|]. split; [vm_compute; reflexivity|].
-  eexists. vm_compute. reflexivity.
+  intros []; eexists; vm_compute; reflexivity.
 Qed.
 
 (* ======================================================================== *)
@@ -1669,9 +1556,3 @@ Proof.
   destruct (app_parts wf Hwf a Ha) as [_ [_ [_ [Htop _]]]].
   apply ttop_not_tin in Htop. destruct (a_tx a); try reflexivity. discriminate Htop.
 Qed.
-
-Lemma wf_okb_handon2 wf pt : wf_okb wf = true -> handon_okb2 wf pt = true.
-Proof. intros H. apply handon_okb_okb2, wf_okb_handon, H. Qed.
-
-Lemma handon_okb2_pass wf : handon_okb2 wf true = true.
-Proof. reflexivity. Qed.
